@@ -26,14 +26,22 @@ BACKUP_RE = re.compile(r'^#(?P<name>.*)\.(?P<idx>[1-9][0-9]*)#$')
 CRASH_STOP = object()
 
 
-def payload(tag, size, binary):
+def payload(tag, size, binary, spice=False):
     """Deterministic payload of exactly ``size`` bytes/characters starting with ``tag``."""
     unit = ('%s|' % tag)
     text = (unit * (size // len(unit) + 1))[:size]
     if size > 40:
         # make line structure so that text files look like text
         text = '\n'.join(text[i:i + 63] for i in range(0, len(text), 63))[:size]
-    return text.encode() if binary else text
+    # line endings and bytes that a text-mode round trip would alter: the destination must hold them as written
+    if spice and size >= 12 and sum(map(ord, tag)) % 3 == 0:
+        text = text[:5] + '\r\n' + text[7:9] + '\r' + text[10:]
+    if not binary:
+        return text
+    data = text.encode()
+    if spice and size >= 12 and sum(map(ord, tag)) % 4 == 1:
+        data = data[:3] + b'\xff\x00' + data[5:]
+    return data
 
 
 def backup_names_of(rel):
@@ -356,7 +364,7 @@ class Execution:
                 return ('raise', err)
         if op == 'write':
             tag, size = args
-            data = payload(tag, size, binary)
+            data = payload(tag, size, binary, spice=True)
             r1 = self.sut(real.write, data)
             r2 = model(mod.write, data) if mod is not None else None
             if r2 is not None and r1[0] != r2[0]:
